@@ -20,6 +20,8 @@ def instances(tier):
         out.append(dict(name='def[%s]' % p, fn='pot_def', args=dict(pot=p)))
     for p_ in POTS:
         out.append(dict(name='elementwise[%s]' % p_, fn='pot_permuted', args=dict(pot=p_), max_paths=256))
+    for p_ in POTS:
+        out.append(dict(name='intgrid[%s]' % p_, fn='pot_intgrid', args=dict(pot=p_), max_paths=256))
     out.append(dict(name='cut-continuity', fn='lj_continuity', args={}))
     out.append(dict(name='wca-sign', fn='wca_sign', args={}, query_timeout_ms=120000))
     out.append(dict(name='sigma-default', fn='sigma_default', args={}))
@@ -27,9 +29,9 @@ def instances(tier):
     return out
 
 
-def make(E, pot, explicit_sigma=True):
+def make(E, pot, explicit_sigma=True, sigma_default=0.8):
     P = pyPRISM.potential
-    sigma = E.real('sigma', pos=True, default=0.8)
+    sigma = E.real('sigma', pos=True, default=sigma_default)
     s = sigma if explicit_sigma else None
     par = dict(sigma=sigma)
     if pot == 'HardSphere':
@@ -130,6 +132,23 @@ def pot_permuted(E, pot):
         got = U.calculate(rp)
         for j, i in enumerate(perm):
             E.claim_eq('%s[%d]' % (name, j), got[j], ref[i])
+
+
+def pot_intgrid(E, pot):
+    """an integer-typed grid (Domain(dr=1) builds one): the values are the documented real numbers, not truncated to the grid's dtype"""
+    r = _np.array([1, 2, 3])
+    U, par = make(E, pot, sigma_default=2.3)       # default inputs (concrete fallback) put grid points inside the cut / core
+    out = U.calculate(r)
+    E.reachable('intgrid')
+    for i in range(3):
+        ri = E.const(float(r[i]))
+        inside = bool(ri <= par['sigma'])
+        beyond = None
+        if pot in ('LennardJonesCut', 'LennardJonesCutShift'):
+            beyond = bool(ri > par['rcut'])
+        elif pot == 'WeeksChandlerAndersen':
+            beyond = bool(ri > par['sigma'] * (QS if E.sym else Q))
+        E.claim_eq('value[%d]' % i, out[i], oracle(E, pot, par, ri, inside, beyond))
 
 
 def lj_continuity(E):
